@@ -178,6 +178,24 @@ fn with_rate_long(kind: &str, rate: f32, len: usize, n: u64, seed: u64, rep: &mu
     t.finish(rep);
 }
 
+/// UMAD rates on a parent of two million genes (aggregated): deletion and addition frequencies
+/// against the configured rates, the mean-size law, and an answer in time linear in the genome.
+fn umad_long(add: f64, del: f64, len: usize, seed: u64, rep: &mut Report) {
+    let cfg = format!("Umad add={add} del={del} len={len} (long genome, aggregated)");
+    vh_core::shard::set_context(format!("C12 {cfg}"));
+    let mut rng = TraceRng::derive(seed, "C12-umad-long", fnv_str(&cfg));
+    let gen = SerialGen::new(0);
+    let parent: Vector<UGene> = (0..len as u32).map(UGene::Parent).collect();
+    let child = Umad::new(add, del, &gen).mutate(parent, &mut rng).unwrap().genes;
+    rep.eval();
+    let kept = child.iter().filter(|g| matches!(g, UGene::Parent(_))).count() as u64;
+    let fresh = child.len() as u64 - kept;
+    let mut t = Table::new(cfg);
+    t.cat(rep, "umad-deletion-rate", "parent gene deleted (aggregated)", len as u64, len as u64 - kept, del);
+    t.cat(rep, "umad-addition-rate", "new gene present after a parent position (aggregated)", len as u64, fresh, add * (1.0 - del));
+    t.finish(rep);
+}
+
 fn umad_config(add: f64, del: f64, len: usize, n: u64, seed: u64, rep: &mut Report) {
     // every constructor: the empty-genome rate (of `new_with_empty_rate`) is deliberately far from
     // both other rates, and must not influence what happens to a non-empty parent
@@ -588,6 +606,7 @@ enum Cfg {
     GeneLarge(usize, usize),
     OneOverLong(&'static str, usize, u64),
     RateLong(&'static str, f32, usize),
+    UmadLong(f64, f64, usize),
     UniformLags(usize, usize),
     FlipLags(usize, usize),
 }
@@ -661,6 +680,9 @@ pub fn run(args: &Args) -> i32 {
             cfgs.push(Cfg::OneOverLong(kind, len, muts));
         }
     }
+    for (a, d) in [(0.3f64, 0.3f64), (0.1, 1.0 / 11.0), (1.0, 0.5)] {
+        cfgs.push(Cfg::UmadLong(a, d, 2_000_000));
+    }
     for kind in ["WithRate/Vec<bool>", "WithRate/Bitstring"] {
         for (rate, len) in [(0.5f32, 1usize << 22), (1.0, 1 << 22), (0.01, 6_000_000)] {
             cfgs.push(Cfg::RateLong(kind, rate, len));
@@ -700,6 +722,7 @@ pub fn run(args: &Args) -> i32 {
             Cfg::UmadEmpty(c, a, e) => umad_empty_config(*c, *a, *e, n, args.seed, &mut rep),
             Cfg::Uniform(fl, len) => uniform_config(*fl, *len, n / (*len as u64).clamp(1, 8) / (*len as u64 / 64).max(1), args.seed, &mut rep),
             Cfg::Bits(w, p, len) => bitstring_config(*w, *p, *len, n / (*len as u64).clamp(1, 8) / (*len as u64 / 64).max(1), args.seed, &mut rep),
+            Cfg::UmadLong(a, d, len) => umad_long(*a, *d, *len, args.seed, &mut rep),
             Cfg::RateLong(kind, rate, len) => with_rate_long(kind, *rate, *len, 2, args.seed, &mut rep),
             Cfg::OneOverLong(kind, len, muts) => one_over_length_long(kind, *len, *muts * args.tier.pick(1, 8), args.seed, &mut rep),
             Cfg::GeneLarge(k, ctor) => gene_config_large(*k, *ctor, n * 8, args.seed, &mut rep),
